@@ -42,7 +42,11 @@ def run_check(prop: str, tier: str, root: str, *, write_evidence: bool = True, o
             if only_rules and name not in only_rules:
                 continue
             res.rules_run.append(name)
-            fn(prog, res)
+            try:
+                fn(prog, res)
+            except AnalysisError as err:
+                # one rule losing its anchor must not hide what the other rules decide
+                error = f"{error}; {err}" if error else f"{err}"
     except AnalysisError as err:
         error = f"{err}"
     except Exception as err:  # a crash of the checker is never a verdict
